@@ -3,7 +3,7 @@
     equalities of primitive-float terms), to the hand-written binary64 model of Model/Quantize.v that the C01 and
     C06 float theorems are about. *)
 From Coq Require Import ZArith Bool Floats.
-From NS Require Import Base.FloatBridge Gen.G01 Gen.TrF Model.Quantize.
+From NS Require Import Base.FloatBridge Base.TrTac Base.TrTacF Gen.G01 Gen.TrF Model.Quantize.
 Local Open Scope Z_scope.
 
 Lemma one_is_one : f_of_Z 1 = 1%float.
@@ -14,7 +14,8 @@ Lemma trf_quantize_to_step_eq t sps :
   trf_quantize_to_step t sps cutoff =
   if finb (t * sps + one_minus_cutoff)%float then Some (q2s t sps) else None.
 Proof.
-  unfold trf_quantize_to_step, q2s, one_minus_cutoff. cbn zeta. rewrite one_is_one. reflexivity.
+  unfold trf_quantize_to_step, q2s, one_minus_cutoff.
+  first [ solve [cbn zeta; rewrite one_is_one; reflexivity] | trf_solve ].
 Qed.
 
 Lemma trf_quantize_to_step_finite t sps :
